@@ -1,9 +1,20 @@
 """C07: scope/task configurations of USim, witnesses replayed on the real code, verdict by ObsC07."""
 import scopedom
+import usimrun
 
 OBS = 'ObsC07'
 LABELS = {'quick': 'until until_kids until_time'.split(), 'thorough': 'until until_kids until_time'.split()}
 
 
 def run(check):
-    scopedom.run(check, OBS, LABELS[check.tier])
+    import random
+    import storm
+    # beyond TLC's bounds: until-blocks on float dates entered at fractional times (dates mapped to ranks)
+    rng = random.Random(check.seed)
+    n = 2500 if check.tier == 'quick' else 40000
+    progs = [storm.timing_program(rng) for _ in range(n)]
+    results = usimrun.run_many([p['roots'] for p in progs], None, starts=[p['start'] for p in progs])
+    more = [(p, storm.rankify(log), len(p['roots'])) for p, (log, outcome) in zip(progs, results)]
+    check.programs += n
+    check.extra['storm_programs'] = n
+    scopedom.run(check, OBS, LABELS[check.tier], more=more)
